@@ -45,11 +45,14 @@ OptionPoints ==
 \* C10: every valid combination of explicit types, plus the shorthands and the defaults
 ValidIn == {R(T_PIPE, 0, 0, ""), R(T_PARENT, 0, 0, ""), R(T_DISCARD, 0, 0, ""), R(T_HANDLE, HFD, 0, ""), R(T_FILE, 0, FFD, ""), R(T_PATH, 0, 0, PATHS), U}
 ValidErr == ValidIn \cup {R(T_STDOUT, 0, 0, "")}
+PIPE3 == R(T_PIPE, 0, 0, "")
 WiringPoints ==
   {Opt(<<a, b, c>>, NoSh, -1, FALSE, TRUE) : a \in ValidIn, b \in ValidIn, c \in ValidErr}
   \cup {Opt(<<U, U, U>>, sh, -1, FALSE, TRUE) : sh \in {[NoSh EXCEPT !.parent = TRUE], [NoSh EXCEPT !.discard = TRUE],
                                                        [NoSh EXCEPT !.file = FFD], [NoSh EXCEPT !.path = PATHS]}}
   \cup {Opt(<<R(T_PIPE, 0, 0, ""), b, c>>, NoSh, 2, FALSE, TRUE) : b \in {U, R(T_PARENT, 0, 0, "")}, c \in {U, R(T_STDOUT, 0, 0, "")}}
+  \* many inherited descriptors
+  \cup {Opt(<<U, U, U>>, NoSh, -1, FALSE, TRUE) @@ [many |-> TRUE], Opt(<<PIPE3, PIPE3, PIPE3>>, NoSh, -1, FALSE, TRUE) @@ [many |-> TRUE]}
   \* a FILE stream that sits on descriptor 0 (for stdin itself, for another stream, and as the shorthand)
   \cup {Opt(<<R(T_FILE, 0, F0, ""), U, U>>, NoSh, -1, FALSE, TRUE), Opt(<<R(T_DEFAULT, 0, F0, ""), U, U>>, NoSh, -1, FALSE, TRUE),
          Opt(<<U, R(T_FILE, 0, F0, ""), U>>, NoSh, -1, FALSE, TRUE), Opt(<<U, U, U>>, [NoSh EXCEPT !.file = F0], -1, FALSE, TRUE)}
@@ -83,7 +86,7 @@ EnvPoints ==
   LET vary == {[EnvBase EXCEPT !.argvx = a] : a \in ArgvXs}
          \cup {[EnvBase EXCEPT !.envb = b, !.envx = x, !.penv = p] : b \in {0, 1}, x \in EnvXs, p \in PEnvs}
          \cup ({[EnvBase EXCEPT !.wd = w, !.prog = p, !.cwd = c] : w \in {"", "/d"}, p \in Progs, c \in Cwds}
-               \ {[EnvBase EXCEPT !.wd = "/d", !.prog = "./c", !.cwd = "/x"]})   \* (the simulated file system knows ".../\./c" under any directory, for the synthetic deep ones)
+               \ {[EnvBase EXCEPT !.wd = w, !.prog = "./c", !.cwd = "/x"] : w \in {"", "/d"}})   \* (the simulated file system knows ".../\./c" under any directory, for the synthetic deep ones)
          \cup {[EnvBase EXCEPT !.wd = "/d", !.prog = p, !.cwdlen = l] : p \in {"./c", "/bin/c"}, l \in CwdLens}
          \cup {[EnvBase EXCEPT !.mask = ms, !.disp = d, !.wd = w] : ms \in Masks, d \in Disps, w \in {"", "/d"}}
          \cup {[EnvBase EXCEPT !.limit = -1, !.mask = ms] : ms \in {<<>>, <<15>>}}   \* no descriptor limit: start must refuse cleanly
@@ -146,11 +149,15 @@ DeadTarget(eff) == \E s \in 1..3 : (eff[s].t = T_HANDLE /\ eff[s].h \in {1, 2} /
 EBADF == -9
 
 RJ(r) == <<r.t, r.h, r.f, r.p>>
-CfgRec == [e |-> "cfg", cap |-> 8, limit |-> IF Family \in {"env", "faultscen"} THEN X.limit ELSE 32, fds |-> [s \in 1..3 |-> IF k.std[s] THEN 1 ELSE 0], extra |-> Extras]
+\* "many": the caller holds a couple of hundred further inheritable descriptors (C11: "any number") under a limit of 512
+Many == "many" \in DOMAIN o
+ExtraList == IF Many THEN Extras \o [i \in 1..230 |-> <<100 + i, 0, "m">>] ELSE Extras
+CfgRec == [e |-> "cfg", cap |-> 8, limit |-> IF Family \in {"env", "faultscen"} THEN X.limit ELSE IF Many THEN 512 ELSE 32,
+           fds |-> [s \in 1..3 |-> IF k.std[s] THEN 1 ELSE 0], extra |-> ExtraList]
           @@ (IF Family \in {"env", "faultscen", "env2"}
                 THEN [env |-> X.penv, cwd |-> X.cwd, cwdlen |-> X.cwdlen, mask |-> X.mask, disp |-> X.disp,
                       fs |-> <<<<"/w/./c", 3>>, <<"/w/sub/c", 3>>, <<"/w/sub//c", 3>>, <<"/./c", 3>>, <<"/sub/c", 3>>, <<"/sub//c", 3>>,
-                               <<"c", 3>>, <<"./c", 3>>, <<"sub/c", 3>>, <<"sub//c", 3>>, <<"/./c", 19>>>>]
+                               <<"c", 3>>, <<"/d/./c", 3>>, <<"/d/sub/c", 3>>, <<"/d/sub//c", 3>>, <<"/./c", 19>>>>]
                 ELSE <<>>)
 StartRec == [e |-> "call", fn |-> "start", h |-> 1, term |-> 2, argv |-> IF o.argv THEN <<X.prog>> \o X.argvx ELSE <<>>, noargv |-> IF o.argv THEN 0 ELSE 1,
              o |-> (IF Family \in {"env", "faultscen", "env2"} THEN [envb |-> X.envb] @@ (IF X.envx = <<"none">> THEN <<>> ELSE [envx |-> X.envx])
@@ -159,7 +166,7 @@ StartRec == [e |-> "call", fn |-> "start", h |-> 1, term |-> 2, argv |-> IF o.ar
                     parent |-> IF o.sh.parent THEN 1 ELSE 0, discard |-> IF o.sh.discard THEN 1 ELSE 0,
                     file |-> o.sh.file, path |-> o.sh.path, input |-> o.input, fork |-> IF o.fork THEN 1 ELSE 0,
                     nb |-> IF "nb" \in DOMAIN o /\ o.nb THEN 1 ELSE 0]]
-BaseFds == Cardinality({s \in 1..3 : k.std[s]}) + Len(Extras)
+BaseFds == Cardinality({s \in 1..3 : k.std[s]}) + Len(ExtraList)
 
 Expected ==
   LET v == Verdict(o)
@@ -180,7 +187,7 @@ Expected ==
             common @@ [r |-> 1, cw |-> ChildWiring(v.eff, kk), cx |-> ChildExtra(v.eff), pp |-> ParentEnds(v.eff, kk.hasInput),
                        cnb |-> 0, cexec |-> 1, cmask |-> <<>>, cdisp |-> <<>>, pmask |-> X.mask, pdisp |-> X.disp, pcwd |-> X.cwd,
                        cargv |-> <<X.prog>> \o X.argvx, cenv |-> ExpEnv, cprog |-> ExpProg]
-       [] Family = "env" /\ X.cwd = "/x" /\ X.wd # "" /\ IsRel(X.prog) ->
+       [] Family = "env" /\ X.cwd = "/x" /\ IsRel(X.prog) ->
             \* the program named relative to the PARENT's directory does not exist (although one of that name exists elsewhere)
             common @@ [r |-> ENOENT, nfd |-> BaseFds, left |-> 0, pmask |-> X.mask, pdisp |-> X.disp, pcwd |-> X.cwd]
        [] Family \in {"env", "env2"} ->
